@@ -25,8 +25,31 @@ import (
 
 func init() { register("clientinfo", clientinfoEngine) }
 
+// printable spellings of control and other special bytes in the encodings a name may pass through
+// (DNS presentation format, C, URL, HTML, MIME), plus the short literals of the code that builds the
+// headers, read from the current source
+var nameEscapes = func() []string {
+	out := []string{"\\000", "\\010", "\\013", "\\027", "\\031", "\\032", "\\127", "\\255", "\\n", "\\r", "\\x0a", "\\u000a", "\\",
+		"%0a", "%0d%0a", "%00", "%7f", "&#10;", "&#x1b;", "=0A", "=?utf-8?q?=0A?=", "\"", "'", ":", ";", ",", "\\.", "\\\\"}
+	for _, t := range sourceDict("resolver/doh.go", "run.go").strs {
+		if len(t) <= 2 {
+			out = append(out, t)
+		}
+	}
+	return out
+}()
+
 func randName(r *rng) string {
-	switch r.intn(8) {
+	switch r.intn(9) {
+	case 8: // escape sequences: a printable name that some decoder could turn into a control byte
+		n := "cam" + nameEscapes[r.intn(len(nameEscapes))]
+		if r.coin(50) {
+			n += string(randLabel(r, 3))
+		}
+		if r.coin(30) {
+			n += nameEscapes[r.intn(len(nameEscapes))]
+		}
+		return n
 	case 0:
 		return ""
 	case 1: // control bytes
